@@ -206,3 +206,189 @@ def divergence(T, a, b, depth=0, memo=None):
                         break
     memo[(a, b)] = res
     return res
+
+
+# ======================================================================= many-kernels: regions ====
+class CFG:
+    def __init__(self, insns):
+        self.insns = insns
+        self.idx = {i.addr: n for n, i in enumerate(insns)}
+        leaders = {insns[0].addr}
+        for n, i in enumerate(insns):
+            if asmabi.is_jump(i.mn):
+                t = asmsym.jump_target(i)
+                if t in self.idx:
+                    leaders.add(t)
+                if n + 1 < len(insns):
+                    leaders.add(insns[n + 1].addr)
+            if i.mn == "ret" and n + 1 < len(insns):
+                leaders.add(insns[n + 1].addr)
+        self.leaders = sorted(leaders)
+        self.blocks = {}
+        for bi, a in enumerate(self.leaders):
+            s = self.idx[a]
+            e = self.idx[self.leaders[bi + 1]] if bi + 1 < len(self.leaders) else len(insns)
+            self.blocks[a] = (s, e)
+        # back edges (target address <= source block start): loop heads
+        self.heads = {}
+        for a, (s, e) in self.blocks.items():
+            last = insns[e - 1]
+            if asmabi.is_jump(last.mn):
+                t = asmsym.jump_target(last)
+                if t is not None and t in self.idx and t <= a:
+                    self.heads.setdefault(t, []).append(last.addr)
+
+    def block_of(self, addr):
+        import bisect
+        return self.leaders[bisect.bisect_right(self.leaders, addr) - 1]
+
+
+def fresh_machine(o, frame_names=("rsp", "rbp")):
+    M = Machine(o)
+    for r in frame_names:
+        g = M.sym64(r)
+        M.gpr[r] = g
+        (s, _), = g.items.items()
+        M.frame_regs[s] = r
+    return M
+
+
+def run_region(o, insns, start_addr, stop_addrs, setup=None, follow=None):
+    """evaluate from start_addr with fresh symbolic state until a stop address, ret, or an undecided branch"""
+    M = fresh_machine(o)
+    if setup:
+        setup(M)
+    idx = {i.addr: n for n, i in enumerate(insns)}
+    res = M.run(insns, idx[start_addr], stop_addrs=set(stop_addrs), follow=follow)
+    return M, res
+
+
+def parse_lane_sym(T, t):
+    n = T.rev[t]
+    if n[0] == "sym":
+        m = re.fullmatch(r"(xmm\d+)\.(\d+)", n[1])
+        if m:
+            return m.group(1), int(m.group(2))
+    return None
+
+
+def out_layout(E, T, nwords_per_input=8, stride=32):
+    """from the stores of an epilogue region: {(g, i): (reg, lane)}, and the base address G"""
+    by_base = {}
+    for a, lanes in E.stores:
+        base = G(dict(a.items), 0).key()
+        for j, t in enumerate(lanes):
+            off = (a.c + 4 * j) & ((1 << 64) - 1)
+            by_base.setdefault(base, {})[off] = t
+    if len(by_base) != 1:
+        return None, "stores go to %d different base addresses" % len(by_base)
+    (base, m), = by_base.items()
+    loc = {}
+    for off, t in m.items():
+        p = parse_lane_sym(T, t)
+        if p is None:
+            return None, "a stored word is not a plain register lane of the loop's result: %s" % T.show(t)[:80]
+        g, r = divmod(off, stride)
+        if r % 4 or r // 4 >= nwords_per_input:
+            return None, "store at offset %d does not fit the %d-byte-per-input layout" % (off, stride)
+        loc[(g, r // 4)] = p
+    return (loc, base, m), None
+
+
+def classify_message(T, term):
+    """the 16 ld32 leaves of a compression output, ordered by address: ([terms], items-key, base const) or error text"""
+    lds = [x for x in leaf_set(T, term) if T.rev[x][0] == "ld32"]
+    if len(lds) != 16:
+        return None, "%d distinct 32-bit loads feed the output (expected the 16 message words)" % len(lds)
+    keys = [T.rev[x][1] for x in lds]
+    items = {k[0] for k in keys}
+    if len(items) != 1:
+        return None, "message words are loaded through different base expressions"
+    order = sorted(zip([k[1] for k in keys], lds))
+    c0 = order[0][0]
+    if [c for c, _ in order] != [(c0 + 4 * j) & ((1 << 64) - 1) for j in range(16)]:
+        return None, "message words are not 16 consecutive dwords"
+    return ([t for _, t in order], items.pop(), c0), None
+
+
+def stage_check(ctx, o, fname, insns, cfg, head, inst):
+    """one loop stage of a many-kernel: body region + epilogue region"""
+    where = "%s:%s+%#x" % (os.path.basename(o.src), fname, head - insns[0].addr)
+    try:
+        B, bres = run_region(o, insns, head, [])
+    except Unsupported as u:
+        return ctx.ob(False, inst, where, "loop body not decidable: %s" % u)
+    if bres[0] != "branch" or bres[1][2] != head:
+        return ctx.ob(False, inst, where, "loop body does not end in its own back edge (%s)" % (bres[0],))
+    T = B.T
+    after = insns[bres[1][3] + 1].addr
+    stops = set(cfg.heads) | {insns[0].addr}
+    try:
+        E, eres = run_region(o, insns, after, stops - {after})
+    except Unsupported as u:
+        return ctx.ob(False, inst, where, "stage epilogue not decidable: %s" % u)
+    lay, err = out_layout(E, E.T)
+    if err:
+        return ctx.ob(False, inst, where, "epilogue: %s" % err)
+    loc, obase, omap = lay
+    W = 1 + max(g for g, i in loc)
+    if set(loc) != {(g, i) for g in range(W) for i in range(8)}:
+        return ctx.ob(False, inst, where, "epilogue does not store 8 words for each of %d inputs" % W)
+    # roles
+    frame_written = [(k, v) for k, v in B.frame.items() if T.rev[v][0] != "sym" or not T.rev[v][1].startswith(B.frame_regs[k[0]] + "[")]
+    problems = []
+    roles = {}
+    for g in range(W):
+        out0 = B.vec[loc[(g, 0)][0]][loc[(g, 0)][1]]
+        msg, err = classify_message(T, out0)
+        if err:
+            problems.append("input %d: %s" % (g, err))
+            break
+        m, items, c0 = msg
+        h = [T.sym("%s.%d" % loc[(g, i)]) for i in range(8)]
+        fsyms = sorted((x for x in leaf_set(T, out0) if T.rev[x][0] == "sym" and re.match(r"(rsp|rbp)\[", T.rev[x][1]) and not T.rev[x][1].endswith(":1")),
+                       key=lambda x: int(re.search(r"\[(-?0x[0-9a-f]+)\]", T.rev[x][1]).group(1), 16))
+        fl_cands = []
+        for k, v in B.scalar_frame_log:
+            if v not in fl_cands:
+                fl_cands.append(v)
+        found = None
+        for lo, hi in [(a, b) for a in fsyms for b in fsyms if a != b]:
+            for fl in fl_cands:
+                v = r_round.spec_compress_pre(T, h, m, lo, hi, T.const(64), fl)
+                if all(T.xor(v[i], v[i + 8]) == B.vec[loc[(g, i)][0]][loc[(g, i)][1]] for i in range(8)):
+                    found = (lo, hi, fl)
+                    break
+            if found:
+                break
+        if not found:
+            # diagnostics with the most plausible roles
+            if len(fsyms) >= 2 and fl_cands:
+                v = r_round.spec_compress_pre(T, h, m, fsyms[0], fsyms[1], T.const(64), fl_cands[0])
+                for i in range(8):
+                    got = B.vec[loc[(g, i)][0]][loc[(g, i)][1]]
+                    want = T.xor(v[i], v[i + 8])
+                    if got != want:
+                        dd = divergence(T, got, want) or (got, want)
+                        problems.append("input %d word %d is not the spec compression of (h, block, counter slots, 64, flags): code has %s ; spec has %s" % (g, i, T.show(dd[0])[:120], T.show(dd[1])[:120]))
+                        break
+            else:
+                problems.append("input %d: could not identify counter slots (%d frame symbols) / flags (%d candidates)" % (g, len(fsyms), len(fl_cands)))
+            break
+        roles[g] = dict(m=m, items=items, c0=c0, lo=found[0], hi=found[1], fl=found[2])
+    if problems:
+        return ctx.ob(False, inst, where, problems[0])
+    # the counter slots of input g are consecutive dwords of two arrays
+    def slot(t):
+        return int(re.search(r"\[(-?0x[0-9a-f]+)\]", T.rev[t][1]).group(1), 16)
+    lo0, hi0 = slot(roles[0]["lo"]), slot(roles[0]["hi"])
+    for g in range(W):
+        if slot(roles[g]["lo"]) != lo0 + 4 * g or slot(roles[g]["hi"]) != hi0 + 4 * g:
+            problems.append("input %d takes its counter from frame slots %#x/%#x ; the arrays start at %#x/%#x" % (g, slot(roles[g]["lo"]), slot(roles[g]["hi"]), lo0, hi0))
+    if len({roles[g]["fl"] for g in range(W)}) != 1:
+        problems.append("inputs use different flag words")
+    if problems:
+        return ctx.ob(False, inst, where, problems[0])
+    ctx.ob(True, inst, where, "%d-way stage: %d instructions; for every input g and word i the loop body maps h -> compress(h, 64 message bytes of input g, counter slots [%#x+4g]/[%#x+4g], 64, flags) term for term; the epilogue stores word i of input g at out+32g+4i"
+           % (W, B.executed, lo0, hi0))
+    return dict(W=W, roles=roles, B=B, E=E, loc=loc, lo0=lo0, hi0=hi0, after=after)
